@@ -22,7 +22,7 @@ for id in $ids; do
   if ! git -C "$W" apply "$PATCH"; then echo -e "$id\tPATCH-DOES-NOT-APPLY" >> "$OUT"; git -C /repo worktree remove --force "$W"; continue; fi
   fired=""
   for c in $CHECKS; do
-    ( timeout 900 /verif/bin/jtverif check $c --repo "$W" --verif "$V" > "$V/$c.log" 2>&1; echo $? > "$V/$c.rc" ) &
+    ( timeout 900 ${JTVERIF_BIN:-/verif/bin/jtverif} check $c --repo "$W" --verif "$V" > "$V/$c.log" 2>&1; echo $? > "$V/$c.rc" ) &
     while [ $(jobs -r | wc -l) -ge 6 ]; do sleep 0.5; done
   done
   wait
